@@ -1,7 +1,7 @@
 (* C16 -- property theorems only.  Proofs live in C16/Proofs*.v. *)
 From Coq Require Import NArith List.
 From DV Require Import Base.Outcome Base.Bytes C16.Gen C16.Model C16.ProofsNeg C16.ProofsTrunc
-  C16.ProofsFrame C16.ProofsSrv C16.ProofsTop.
+  C16.ProofsFrame C16.ProofsSrv C16.ProofsTop C16.ProofsC02.
 Import ListNotations.
 Local Open Scope N_scope.
 
@@ -239,3 +239,20 @@ Theorem C16_hostile_input_total : forall chunks,
     (c_open st = false <-> In EvDisconnect ev).
 Proof. exact hostile_input_total. Qed.
 Print Assumptions C16_hostile_input_total.
+
+(* ---- tie to C02's builder model: what the builder hands to a stream ---- *)
+(* a response produced by ANY script of builder operations over a StreamTarget
+   (C02's reachable states) is at most 65535 octets and its stream slice is the
+   two-octet big-endian length followed by the message *)
+Theorem C16_built_response_framed : forall s, built s ->
+  len (C02.Model.msg_of s) <= 65535 /\
+  frame_out (C02.Model.msg_of s) = Ok (C02.Model.stream_of s) /\
+  C02.Model.stream_of s = frame (C02.Model.msg_of s).
+Proof. exact built_framed. Qed.
+Print Assumptions C16_built_response_framed.
+
+(* pipelined: the concatenated stream slices of built responses split back into them *)
+Theorem C16_built_pipeline_splits : forall ss, Forall built ss ->
+  split_frames (S (length ss)) (concat (map C02.Model.stream_of ss)) = (map C02.Model.msg_of ss, []).
+Proof. exact built_pipeline. Qed.
+Print Assumptions C16_built_pipeline_splits.
